@@ -95,6 +95,77 @@ bool IsOpSuccess(const opcodetype opcode)
 __CPROVER_ensures((__CPROVER_return_value != 0) == SPEC_OPSUCCESS(opcode))
 __CPROVER_assigns();
 
+#define C12_PASS_CONSTS
+#include "slices.h"      /* first pass: the extracted ScriptError enum and size limits (the contract below names them) */
+#undef C12_PASS_CONSTS
+#define SCRIPT_VERIFY_DISCOURAGE_OP_SUCCESS (1u << BIT_SCRIPT_VERIFY_DISCOURAGE_OP_SUCCESS)   /* script_verify_flags is a bitset over the extracted enum */
+/* ---- ExecuteWitnessScript: the order of the tapscript pre-checks (BIP342) ----
+ * The witness stack is seen through its size and the sizes of its elements, the script through what GetOp decodes at each
+ * instruction; both are arbitrary functions of the position, each position read at most once by the code, so a read is a fresh
+ * nondeterministic value except at one arbitrary pinned position (g_e / g_s), whose value is fixed before the call: a statement
+ * about the pinned position is a statement about every position. */
+typedef struct { size_t n; bool top_true; } WStack;
+typedef struct { size_t n; } OpStream;
+enum { SIGVERSION_BASE = 0, SIGVERSION_WITNESS_V0 = 1, SIGVERSION_TAPROOT = 2, SIGVERSION_TAPSCRIPT = 3 };
+size_t g_s; bool g_s_ok; unsigned char g_s_op;      /* arbitrary instruction index and what decoding yields there */
+size_t g_e, g_e_size;                               /* arbitrary element index and that element's size */
+size_t g_scan; bool g_scan_ok; unsigned char g_scan_op;   /* last instruction the pre-scan decoded */
+size_t g_elem, g_elem_size;                         /* last element whose size was looked at */
+bool g_eval_called, g_eval_result; size_t g_eval_stack_n;
+bool stack_top_true_after; /* truth of the top element EvalScript left */
+bool nondet_bool(void); size_t nondet_size_t(void); unsigned char nondet_uchar(void);
+static inline bool set_error(ScriptError* serror, ScriptError e) { if (serror) *serror = e; return 0; }           /* VERIF_STUB script_error helpers */
+static inline bool set_success(ScriptError* serror) { if (serror) *serror = SCRIPT_ERR_OK; return 1; }
+static inline bool OpStream_GetOp(const OpStream* s, size_t* pc, opcodetype* opcode)      /* VERIF_STUB of CScript::GetOp: one instruction per call */
+{ size_t k = *pc; bool ok = (k == g_s) ? g_s_ok : nondet_bool(); unsigned char op = (k == g_s) ? g_s_op : nondet_uchar();
+  g_scan = k; g_scan_ok = ok; g_scan_op = op; *opcode = ok ? (opcodetype)op : 0xff; *pc = k + 1; return ok; }
+static inline size_t WStack_elem_size(const WStack* st, size_t i) { size_t z = (i == g_e) ? g_e_size : nondet_size_t(); g_elem = i; g_elem_size = z; return z; }
+static inline bool EvalScript_stub(WStack* st, ScriptError* serror) { g_eval_called = 1; st->n = g_eval_stack_n; st->top_true = nondet_bool(); stack_top_true_after = st->top_true; if (!g_eval_result && serror) *serror = SCRIPT_ERR_UNKNOWN_ERROR; return g_eval_result; }   /* arbitrary verdict and resulting stack */
+static inline bool WStack_top_is_true(const WStack* st) { return st->top_true; }
+#define GHOST_OPSCAN_STEP(pc) ((void)0)
+#define GHOST_ELEM_STEP(i) ((void)0)
+#define PLAIN_S (g_s_ok && !SPEC_OPSUCCESS((int)g_s_op))          /* the pinned instruction decodes and is not an OP_SUCCESSx */
+#define SCAN_HIT_SUCCESS (g_scan < exec_script->n && g_scan_ok && SPEC_OPSUCCESS((int)g_scan_op) && (g_s < g_scan ==> PLAIN_S))
+#define SCAN_CLEAN (g_s < exec_script->n ==> PLAIN_S)
+#define LOOP_OPSCAN \
+    __CPROVER_assigns(pc, g_scan, g_scan_ok, g_scan_op) \
+    __CPROVER_loop_invariant(pc <= exec_script->n && (g_s < pc ==> PLAIN_S)) \
+    __CPROVER_decreases(exec_script->n - pc)
+#define LOOP_ELEMS \
+    __CPROVER_assigns(i_e, g_elem, g_elem_size) \
+    __CPROVER_loop_invariant(i_e <= stack.n && (g_e < i_e ==> g_e_size <= 520)) \
+    __CPROVER_decreases(stack.n - i_e)
+#define TAPSCRIPT (sigversion == 3)
+#define ERR(e) (!__CPROVER_return_value && *serror == (e))
+VERIF_REACH_DECL(ExecuteWitnessScript)
+bool ExecuteWitnessScript(const WStack* stack_span, const OpStream* exec_script, unsigned flags, int sigversion, ScriptError* serror)
+__CPROVER_requires(__CPROVER_is_fresh(stack_span, sizeof(WStack)) && __CPROVER_is_fresh(exec_script, sizeof(OpStream)) && __CPROVER_is_fresh(serror, sizeof(ScriptError)))
+__CPROVER_requires(sigversion >= 0 && sigversion <= 3 && !g_eval_called)
+/* BIP342: an OP_SUCCESSx met while every earlier instruction decoded decides the spend at once -- whatever the stack looks like */
+#ifdef TWIN_SUCCESS_AFTER_SIZE
+__CPROVER_ensures((__CPROVER_return_value && !g_eval_called) ==> (g_e < stack_span->n ==> g_e_size <= 520))
+#endif
+__CPROVER_ensures((__CPROVER_return_value && !g_eval_called) ==> (TAPSCRIPT && !(flags & SCRIPT_VERIFY_DISCOURAGE_OP_SUCCESS) && SCAN_HIT_SUCCESS))
+__CPROVER_ensures(ERR(SCRIPT_ERR_DISCOURAGE_OP_SUCCESS) ==> (TAPSCRIPT && (flags & SCRIPT_VERIFY_DISCOURAGE_OP_SUCCESS) && SCAN_HIT_SUCCESS && !g_eval_called))
+__CPROVER_ensures(ERR(SCRIPT_ERR_BAD_OPCODE) ==> (TAPSCRIPT && g_scan < exec_script->n && !g_scan_ok && (g_s < g_scan ==> PLAIN_S) && !g_eval_called))
+/* the size limits are reached only when no OP_SUCCESSx / undecodable opcode was met (tapscript) -- and they are enforced before evaluation */
+__CPROVER_ensures(ERR(SCRIPT_ERR_STACK_SIZE) ==> (TAPSCRIPT && SCAN_CLEAN && stack_span->n > 1000 && !g_eval_called))
+__CPROVER_ensures(ERR(SCRIPT_ERR_PUSH_SIZE) ==> ((TAPSCRIPT ==> (SCAN_CLEAN && stack_span->n <= 1000)) && g_elem < stack_span->n && g_elem_size > 520 && (g_e < g_elem ==> g_e_size <= 520) && !g_eval_called))
+__CPROVER_ensures(g_eval_called ==> ((TAPSCRIPT ==> (SCAN_CLEAN && stack_span->n <= 1000)) && (g_e < stack_span->n ==> g_e_size <= 520)))
+/* conversely: nothing else stops the function before evaluation */
+__CPROVER_ensures((!g_eval_called && !__CPROVER_return_value) ==> (*serror == SCRIPT_ERR_DISCOURAGE_OP_SUCCESS || *serror == SCRIPT_ERR_BAD_OPCODE || *serror == SCRIPT_ERR_STACK_SIZE || *serror == SCRIPT_ERR_PUSH_SIZE))
+/* after evaluation: success iff EvalScript succeeded and left exactly one true element; the error names which of the two failed */
+__CPROVER_ensures(g_eval_called ==> (__CPROVER_return_value == (g_eval_result && g_eval_stack_n == 1 && stack_top_true_after)))
+__CPROVER_ensures((g_eval_called && g_eval_result && g_eval_stack_n != 1) ==> ERR(SCRIPT_ERR_CLEANSTACK))
+__CPROVER_ensures((g_eval_called && g_eval_result && g_eval_stack_n == 1 && !stack_top_true_after) ==> ERR(SCRIPT_ERR_EVAL_FALSE))
+VERIF_REACH_ENSURES(ExecuteWitnessScript, __CPROVER_return_value && !g_eval_called && stack_span->n > 2000 && g_e < stack_span->n && g_e_size > 520)
+VERIF_REACH_ENSURES(ExecuteWitnessScript, ERR(SCRIPT_ERR_PUSH_SIZE) && TAPSCRIPT && exec_script->n > 2)
+VERIF_REACH_ENSURES(ExecuteWitnessScript, ERR(SCRIPT_ERR_BAD_OPCODE) && g_scan > 1)
+VERIF_REACH_ENSURES(ExecuteWitnessScript, __CPROVER_return_value && g_eval_called && sigversion == 1)
+__CPROVER_assigns(*serror, g_scan, g_scan_ok, g_scan_op, g_elem, g_elem_size, g_eval_called, stack_top_true_after);
+
+#define C12_PASS_FUNCS
+#define C12_PASS_EWS
 #include "slices.h"
 
 int64_t nondet_i64(void); bool nondet_bool(void); size_t nondet_size_t(void); int nondet_int(void);
@@ -104,6 +175,7 @@ void h_from_vch(void) { const ByteVec* v; CScriptNum_from_vch(v, nondet_bool(), 
 void h_getint(void) { int r = CScriptNum_getint(nondet_i64()); if (r == INT_MAX) VERIF_REACH_PT("saturated high"); if (r == INT_MIN) VERIF_REACH_PT("saturated low"); }
 void h_CastToBool(void) { const ByteVec* v; g_i = nondet_size_t(); bool r = CastToBool(v); if (r) VERIF_REACH_PT("true"); else VERIF_REACH_PT("false"); }
 void h_CheckMinimalPush(void) { const ByteVec* d; bool r = CheckMinimalPush(d, nondet_int()); if (r) VERIF_REACH_PT("minimal"); else VERIF_REACH_PT("not minimal"); }
+void h_ExecuteWitnessScript(void) { const WStack* st; const OpStream* sc; ScriptError* se; g_s = nondet_size_t(); g_s_ok = nondet_bool(); g_s_op = nondet_uchar(); g_e = nondet_size_t(); g_e_size = nondet_size_t(); g_eval_result = nondet_bool(); g_eval_stack_n = nondet_size_t(); unsigned fl; int sv; VERIF_REACH_ON(ExecuteWitnessScript); ExecuteWitnessScript(st, sc, fl, sv, se); }
 void h_IsOpSuccess(void) { bool r = IsOpSuccess(nondet_int()); if (r) VERIF_REACH_PT("op_success"); else VERIF_REACH_PT("ordinary"); }
 /* lemma (contracts only): decoding what serialize emits gives the value back, for every value that fits the 7-byte decoder */
 void h_lemma_scriptnum_roundtrip(void)
